@@ -34,9 +34,13 @@ pub fn start_server(set: &CertSet) -> Result<SocketAddr> {
 
 /// The real client library, configured with (ca, identity).
 pub async fn client(addr: SocketAddr, ca: &[u8], id: &Identity, backoff: BackoffStrategy) -> Result<Client> {
+    client_ka(addr, ca, id, backoff, 5_000).await
+}
+
+pub async fn client_ka(addr: SocketAddr, ca: &[u8], id: &Identity, backoff: BackoffStrategy, keep_alive_ms: u64) -> Result<Client> {
     let dir = certs::write_dir(ca, id);
     let c = selium::custom()
-        .keep_alive(5_000u64)?
+        .keep_alive(keep_alive_ms)?
         .backoff_strategy(backoff)
         .endpoint(&addr.to_string())
         .with_certificate_authority(certs::p(&dir, "ca.der"))?
@@ -132,6 +136,11 @@ pub struct FakeServer {
 
 impl FakeServer {
     pub fn start(set: &CertSet) -> Result<Self> {
+        Self::start_with_idle(set, None)
+    }
+
+    /// `idle`: the idle time-out this endpoint advertises (QUIC uses the smaller of both peers' values)
+    pub fn start_with_idle(set: &CertSet, idle: Option<Duration>) -> Result<Self> {
         let mut roots = RootCertStore::empty();
         roots.add(&Certificate(set.ca.clone()))?;
         let verifier = Arc::new(AllowAnyAuthenticatedClient::new(roots));
@@ -143,6 +152,9 @@ impl FakeServer {
         let mut cfg = ServerConfig::with_crypto(Arc::new(crypto));
         let t = Arc::get_mut(&mut cfg.transport).unwrap();
         t.max_concurrent_uni_streams(0u8.into());
+        if let Some(d) = idle {
+            t.max_idle_timeout(Some(quinn::IdleTimeout::try_from(d)?));
+        }
         let endpoint = Endpoint::server(cfg, "127.0.0.1:0".parse().unwrap())?;
         let addr = endpoint.local_addr()?;
         let (tx, rx) = mpsc::unbounded_channel();
@@ -197,5 +209,75 @@ impl FakeServer {
 
     pub fn shutdown(&self) {
         self.endpoint.close(0u32.into(), b"done");
+    }
+}
+
+// ------------------------------------------------------------------ UDP relay (silent outages)
+
+/// A UDP relay in front of a server. While `blackhole` is set every datagram in
+/// either direction is dropped: to both peers the other side has silently
+/// vanished, so their QUIC connections end by idle time-out instead of by a close
+/// frame. Each client source address gets its own upstream socket.
+pub struct Relay {
+    pub addr: SocketAddr,
+    blackhole: Arc<std::sync::atomic::AtomicBool>,
+}
+
+impl Relay {
+    pub async fn start(upstream: SocketAddr) -> Result<Self> {
+        use std::collections::HashMap;
+        use std::sync::atomic::{AtomicBool, Ordering};
+        use tokio::net::UdpSocket;
+        let front = Arc::new(UdpSocket::bind("127.0.0.1:0").await?);
+        let addr = front.local_addr()?;
+        let blackhole = Arc::new(AtomicBool::new(false));
+        let bh = blackhole.clone();
+        tokio::spawn(async move {
+            let mut ups: HashMap<SocketAddr, Arc<UdpSocket>> = HashMap::new();
+            let mut buf = vec![0u8; 65536];
+            loop {
+                let (n, from) = match front.recv_from(&mut buf).await {
+                    Ok(x) => x,
+                    Err(_) => return,
+                };
+                if bh.load(Ordering::SeqCst) {
+                    continue;
+                }
+                let up = match ups.get(&from) {
+                    Some(u) => u.clone(),
+                    None => {
+                        let u = match UdpSocket::bind("127.0.0.1:0").await {
+                            Ok(u) => Arc::new(u),
+                            Err(_) => continue,
+                        };
+                        if u.connect(upstream).await.is_err() {
+                            continue;
+                        }
+                        ups.insert(from, u.clone());
+                        let (u2, front2, bh2) = (u.clone(), front.clone(), bh.clone());
+                        tokio::spawn(async move {
+                            let mut b = vec![0u8; 65536];
+                            loop {
+                                match u2.recv(&mut b).await {
+                                    Ok(n) => {
+                                        if !bh2.load(Ordering::SeqCst) {
+                                            let _ = front2.send_to(&b[..n], from).await;
+                                        }
+                                    }
+                                    Err(_) => return,
+                                }
+                            }
+                        });
+                        u
+                    }
+                };
+                let _ = up.send(&buf[..n]).await;
+            }
+        });
+        Ok(Relay { addr, blackhole })
+    }
+
+    pub fn set_blackhole(&self, on: bool) {
+        self.blackhole.store(on, std::sync::atomic::Ordering::SeqCst);
     }
 }
